@@ -83,9 +83,9 @@ PROPS = {
     "C04": P(["tri"], tb=TRI_TB, assumptions=TRI_AS,
              partial="acceptance is a theorem for every non-degenerate triangle (C04Triangle.triangle_accepted_general, vertical edges included) and every simple quadrilateral with distinct abscissae (C04Quad.quad_accepted: convex, reflex Bend, improper Start, merging End; two triangles, exact area, ghost order flag true); C04Ties/C04Order justify the comparator's tie rules and the list model of the B-tree; C04QuadV.quad_accepted_general removes the distinct-abscissae hypothesis (vertical edges, aligned vertices); C04Convex.convex_accepted: every strictly convex x-monotone polygon with n >= 3 vertices and distinct abscissae, any start vertex and orientation, yields n-2 non-degenerate triangles with input corners and total area |shoelace|, ghost flag true (induction over the event queue); C04Monotone.monotone_accepted: the same for every simple x-monotone polygon with distinct abscissae, reflex vertices on both chains allowed (the back-chain grows and is cut in fans: polygon-independent fan lemma nt_fwd_fan / nt_bwd_fan); C04General.general_accepted is the general theorem in general position: EVERY valid polygon set all of whose vertex abscissae are pairwise distinct (any number of components, holes, islands in holes to any depth, non-monotone polygons with splitting Starts and merging Ends, either orientation, any start vertex, any polygon order) is accepted with the ghost order flag true - validity stated with orientation determinants (edges without a common vertex are apart, no spikes), proved via an invariant GInv over an arbitrary number of active edges/intervals preserved by every handler (ginv_bend, ginv_end, ginv_start) and a proof that validity excludes crossings of the left-to-right edges; and C04GeneralV.general_accepted_V removes the hypothesis on the abscissae altogether: EVERY valid polygon set (>= 3 vertices, pairwise distinct vertices, edges without a common vertex apart, no spikes; vertical edges and any number of vertices on one vertical line allowed - L, U, plus, rectangles with rectangular holes) is accepted with the ghost flag true (a shear x+eps*y with an explicit eps makes the order of abscissae the lexicographic order without changing any orientation determinant; bridging lemmas turn order facts of the sheared ring into the comparator's answers on the original points including every tie rule, and verticalIsCrossed provably never fires on valid input); this is property C04 for the model in exact arithmetic; what remains outside theorems is floating-point rounding (explored: bit-exact correspondence, exhaustive enumeration, exact affine images) and the known overflow findings"),
     "C15": P(["tri"], tb=TRI_TB, assumptions=TRI_AS,
-             partial="C15Heap proves for every input that the model never fails with a heap-encoding panic (model-bad-*), never reaches `unreachable`, and (over XQ) never indexes a missing registered edge (`index`): C15General.general_total: for EVERY polygon set in general position (>= 3 vertices, distinct abscissae, no spikes, no vertex on another edge) the model returns either Ok (ghost flag true) or an Overlap error naming an input point - never a panic of any kind, never out-of-fuel, never another error; and Ok holds exactly when no two edges meet (general_accept_iff); for degenerate inputs the only panic kind not excluded outright is a RefCell `borrow` conflict: C15Borrow proves it can only be raised in a pass that starts with a self-loop or coinciding partners among the edges registered with the vertex being handled, an executable monitor of exactly that condition (Model/SweepMon.lean, proved identical to the theorem's monitor in C15Monitor) runs in the driver next to every compared input, and the harness reports any input on which it drops (never observed; the prover's own search of 2.6e8 lattice inputs found none); the deep field-wise `==` of BTreeSet::range's sanity check is modelled by identity only"),
+             partial="C15Heap proves for every input that the model never fails with a heap-encoding panic (model-bad-*), never reaches `unreachable`, and (over XQ) never indexes a missing registered edge (`index`): C15General.general_total: for EVERY polygon set in general position (>= 3 vertices, distinct abscissae, no spikes, no vertex on another edge) the model returns either Ok (ghost flag true) or an Overlap error naming an input point - never a panic of any kind, never out-of-fuel, never another error; and Ok holds exactly when no two edges meet (general_accept_iff); C15GeneralV.general_total_V extends this to equal abscissae and vertical edges (pairwise distinct vertices, no spikes, no vertex on another ring edge), with general_accept_iff_V: Ok exactly for the valid sets; for the remaining degenerate inputs (duplicate vertices are reported by validation; a vertex on another edge; spikes) the only panic kind not excluded outright is a RefCell `borrow` conflict: C15Borrow proves it can only be raised in a pass that starts with a self-loop or coinciding partners among the edges registered with the vertex being handled, an executable monitor of exactly that condition (Model/SweepMon.lean, proved identical to the theorem's monitor in C15Monitor) runs in the driver next to every compared input, and the harness reports any input on which it drops (never observed; the prover's own search of 2.6e8 lattice inputs found none); the deep field-wise `==` of BTreeSet::range's sanity check is modelled by identity only"),
     "C16": P(["tri"], tb=TRI_TB, assumptions=TRI_AS,
-             partial="C16Quad.bowtie_rejected: every self-intersecting quadrilateral with distinct abscissae is rejected with an Overlap error at its second event (full path through the model, all rotations and orientations); C16Monotone.crossing_rejected: every polygon made of two x-monotone chains (any number of vertices, distinct abscissae) whose chains are not simple, with no vertex exactly on the other chain, is rejected with Overlap(Bend, p), and the crossing_rejected_at_* theorems say at which Bend: the one that creates the later of the two crossing edges (one event before the vertex on the wrong side is reached); C16General.crossing_rejected is the general theorem in general position: EVERY polygon set (any number of polygons, any nesting) with pairwise distinct vertex abscissae, no spikes and no vertex on another edge's line inside its abscissa range, in which two ring edges without a common vertex cross properly, is rejected with an Overlap error by sweep and sweepMon, no triangle list is ever returned, and the run stops strictly left of every point where two edges meet (crossing_rejected_where) - via an invariant XInv = sweep invariant + 'every neighbouring pair was tested', under which each handler either succeeds or returns Overlap and nothing else; degenerate inputs (equal abscissae, touching) are decided by exhaustive enumeration and generators; C16.lean covers the local crossing test"),
+             partial="C16Quad.bowtie_rejected: every self-intersecting quadrilateral with distinct abscissae is rejected with an Overlap error at its second event (full path through the model, all rotations and orientations); C16Monotone.crossing_rejected: every polygon made of two x-monotone chains (any number of vertices, distinct abscissae) whose chains are not simple, with no vertex exactly on the other chain, is rejected with Overlap(Bend, p), and the crossing_rejected_at_* theorems say at which Bend: the one that creates the later of the two crossing edges (one event before the vertex on the wrong side is reached); C16General.crossing_rejected is the general theorem in general position: EVERY polygon set (any number of polygons, any nesting) with pairwise distinct vertex abscissae, no spikes and no vertex on another edge's line inside its abscissa range, in which two ring edges without a common vertex cross properly, is rejected with an Overlap error by sweep and sweepMon, no triangle list is ever returned, and the run stops strictly left of every point where two edges meet (crossing_rejected_where) - via an invariant XInv = sweep invariant + 'every neighbouring pair was tested', under which each handler either succeeds or returns Overlap and nothing else; C16GeneralV.crossing_rejected_V removes the hypothesis on the abscissae: pairwise distinct vertices, no spikes, no vertex on another ring edge (lexicographic NoTouchV) - vertical edges and equal abscissae allowed, including the rejection path through verticalIsCrossed; only inputs with a vertex ON another edge (touching) remain decided by exhaustive enumeration and generators; C16.lean covers the local crossing test"),
     "C07": P(["disp2d"], tb=DISP_TB, assumptions=DISP_AS,
              partial="C07Accuracy proves the clause end to end on the exact class: for polynomial f, c (resp. g) given through the AD operations, with the integrand f*g' of degree <= 31, every piece's reported value differs from the TRUE real integral of f dg over that piece by at most |b-a|/2 * 1e-16 * sum|coeff|*max(|a|,|b|)^k (the table defect; independent of the number of bisections), 0 <= e < tol, and the reported values of the pieces of [a,b] add up to the integral over [a,b] within the sum of those bounds (rs_piece_accuracy, cav_piece_accuracy, *_total_accuracy); beyond that class the clause is decided by the exact-antiderivative oracle and the reference quadrature"),
     "C08": P(["disp3d", "quad2d"], tb=DISP_TB + TRI_TB + QUAD_TB, assumptions=DISP_AS,
@@ -221,7 +221,7 @@ LEVEL_TEXT["C15"].update({
     "technique": "Lean 4 invariant proofs (Hoare calculus over the heap-explicit sweep model) + executable ghost monitor + exhaustive panic search with model correspondence"})
 LEVEL_TEXT["C16"].update({
     "text": LEVEL_TEXT["C16"]["text"] + " Added: C16General.crossing_rejected - every polygon set in general position (distinct abscissae, no spikes, no vertex on another edge) with a proper crossing is rejected with Overlap, never triangulated, and the run stops left of every meeting point. Also, full path on the model: every self-intersecting quadrilateral with distinct abscissae is rejected with Overlap at its second event (C16Quad.bowtie_rejected_at); every polygon made of two x-monotone chains (n arbitrary) whose chains are not simple is rejected with Overlap(Bend, p), with the exact Bend (C16Monotone.crossing_rejected, crossing_rejected_at_*).",
-    "note": "Genuine defects repaired by fix commits f406d59 and 18aefee. For degenerate inputs (equal abscissae, vertices on edges) global rejection is enumeration, not a theorem.",
+    "note": "Genuine defects repaired by fix commits f406d59 and 18aefee. C16GeneralV covers equal abscissae and vertical edges; only inputs with a vertex on another edge are left to enumeration.",
     "technique": "Lean 4 general rejection theorem (sweep invariant with tested-neighbours clause) + full-path theorems for small classes + exhaustive enumeration with exact oracle"})
 LEVEL_TEXT["C07"].update({
     "text": LEVEL_TEXT["C07"]["text"] + " Added (C07Accuracy): for polynomial f and c (resp. g) evaluated through the generated AD operations with integrand of degree <= 31, each piece's reported value is within the table defect of the TRUE real integral of f dg over the piece (Mathlib interval integral), 0 <= e < tol, and the reported values of the pieces of [a,b] add up to the integral over [a,b] within the sum of the bounds, for any number of bisections.",
